@@ -432,7 +432,9 @@ func main() {
 	}
 
 	// the thorough tier measures which statements of gokrb5 the workload executed (go test -cover over all gokrb5 packages)
-	cover := tier == "thorough" && replay == "" && os.Getenv("VERIF_NOCOVER") == ""
+	// (not for the race-detector builds: every coverage counter update becomes an instrumented atomic access, C02's thorough
+	// tier then ran nine times longer and was killed at 37 GB)
+	cover := tier == "thorough" && replay == "" && os.Getenv("VERIF_NOCOVER") == "" && !c.race
 	bin, err := build(prop, c, cover)
 	if err != nil && cover {
 		cover = false
@@ -640,7 +642,7 @@ func main() {
 			cov["statement_coverage"] = sc
 		}
 	} else {
-		cov["statement_coverage"] = "not measured in this tier (the thorough tier builds with -cover)"
+		cov["statement_coverage"] = "not measured in this run (only the thorough tier builds with -cover, and not the race-detector builds of C02 and C11)"
 	}
 	verdict := "held"
 	if nviol > 0 {
